@@ -163,7 +163,9 @@ SendCall(t, c, res) ==
 SendCanWake(t) ==
   /\ call[t] # NULL /\ call[t].op = "send"
   /\ LET c == call[t].c  id == call[t].id IN
-     ~(sendMsg[c] = id /\ id \notin sendExpired /\ ~cclosed[c] /\ ~(opt[c].failNoPeers /\ pipes = {}))
+     \* (it also leaves when the request was given up while it was still waiting for a pipe - by the receive timer of
+     \* a Recv on the same context: it is no longer queued, nothing would ever dispatch it)
+     ~(sendMsg[c] = id /\ queued[c] /\ id \notin sendExpired /\ ~cclosed[c] /\ ~(opt[c].failNoPeers /\ pipes = {}))
 
 SendWake(t, res) ==
   /\ ~DispatchPending
@@ -177,7 +179,8 @@ SendWake(t, res) ==
             /\ dead' = dead \cup {id}
             /\ res = IF cclosed[c] THEN "ErrClosed"
                      ELSE IF opt[c].failNoPeers /\ pipes = {} THEN "ErrNoPeers"
-                     ELSE "ErrSendTimeout"
+                     ELSE IF id \in sendExpired THEN "ErrSendTimeout"
+                     ELSE "ErrCanceled"
        ELSE /\ res = "ok"
             /\ UNCHANGED <<sendQ, queued, sendMsg, reqID, dead>>
   /\ call' = [call EXCEPT ![t] = NULL]
@@ -441,7 +444,7 @@ Next ==
        \/ \E r \in {"ok", "wait", "ErrClosed", "ErrNoPeers"} : SendCall(t, c, r)
        \/ \E r \in {"wait", "ErrClosed", "ErrNoPeers", "ErrProtoState"} : RecvCall(t, c, r)
   \/ \E t \in Thread :
-       \/ \E r \in {"ok", "ErrClosed", "ErrNoPeers", "ErrSendTimeout"} : SendWake(t, r)
+       \/ \E r \in {"ok", "ErrClosed", "ErrNoPeers", "ErrSendTimeout", "ErrCanceled"} : SendWake(t, r)
        \/ \E r \in {"ok", "ErrClosed", "ErrNoPeers", "ErrRecvTimeout", "ErrCanceled"} :
             \E m \in ReplySet \cup {NoReply} : RecvWake(t, r, m)
   \/ \E p \in Pipe :
@@ -460,7 +463,7 @@ Spec == Init /\ [][Next]_vars
 Fairness ==
   /\ WF_vars(Dispatch)
   /\ \A p \in Pipe : WF_vars(XmitStart(p)) /\ WF_vars(XmitEnd(p, TRUE)) /\ WF_vars(Requeue(p))
-  /\ \A t \in Thread : WF_vars(\E r \in {"ok", "ErrClosed", "ErrNoPeers", "ErrSendTimeout"} : SendWake(t, r))
+  /\ \A t \in Thread : WF_vars(\E r \in {"ok", "ErrClosed", "ErrNoPeers", "ErrSendTimeout", "ErrCanceled"} : SendWake(t, r))
   /\ \A t \in Thread : WF_vars(\E r \in {"ok", "ErrClosed", "ErrNoPeers", "ErrRecvTimeout", "ErrCanceled"} :
                                   \E m \in ReplySet \cup {NoReply} : RecvWake(t, r, m))
   /\ WF_vars(\E x \in asyncRs : ResendRun(x[1], x[2]))
@@ -502,6 +505,24 @@ NoRetryNoResend ==
 \* one pipe per transmission and a pipe carries one transmission at a time
 ReadyNotBusy == \A i \in 1..Len(readyQ) : inflight[readyQ[i]] = NULL \/ inflight[readyQ[i]].st = "post"
 ReadyDistinct == \A i, j \in 1..Len(readyQ) : i # j => readyQ[i] # readyQ[j]
+
+\* C04 "re-sends until a peer answers" as state predicates of the quiescent states (the library has nothing left to
+\* do on its own): every outstanding request is accounted for - waiting in the send queue (no connection is ready),
+\* or handed to a connection the protocol still has - and, when it retries, a timer that will re-send it is armed.
+\* Together with the run-to-completion of the internal steps this is what the trace validation's quiescence lines
+\* check on executions; here TLC checks it in every reachable state of the model.
+OutstandingReq(c) == reqID[c] # 0 /\ (sendMsg[c] # 0 \/ reqMsg[c] # 0) /\ ~cclosed[c]
+Accounted(c) == queued[c] \/ (reqMsg[c] # 0 /\ lastPipe[c] \in pipes)
+NoOrphan == ~CanInternal => \A c \in Ctx : OutstandingReq(c) => Accounted(c)
+RetryArmed ==
+  ~CanInternal => \A c \in Ctx :
+     (OutstandingReq(c) /\ reqMsg[c] # 0 /\ ~queued[c] /\ Retry(c) > 0) =>
+        \E tm \in timers : tm.k = "resend" /\ tm.c = c /\ tm.id = reqID[c]
+\* a blocked call has a reason to be blocked: a Send is waiting for a connection, a Recv for its reply
+BlockedForAReason ==
+  ~CanInternal => \A t \in Thread : call[t] # NULL =>
+     IF call[t].op = "send" THEN sendMsg[call[t].c] = call[t].id /\ queued[call[t].c] /\ readyQ = <<>>
+     ELSE reqID[call[t].c] = call[t].id /\ repMsg[call[t].c] = NoReply
 
 \* C10: after the socket is closed nothing is registered, queued or stored
 ClosedIsEmpty == sclosed => (Registered = {} /\ \A c \in Ctx : reqMsg[c] = 0 /\ repMsg[c] = NoReply /\ (reqID[c] = 0 \/ sendMsg[c] # 0))
